@@ -35,6 +35,11 @@ impl<P: Protocol> GenericCloud<MockDevice, P, MockSocket, MockTimeSource> {
     pub fn v_housekeep(&mut self) -> bool {
         self.housekeep().is_ok()
     }
+    /// the beacon path: `connect_sock` with an address as the beacon decoder returns it (a plain IPv4 socket address)
+    pub fn v_connect_sock_v4(&mut self, port: u16) {
+        let a: SocketAddr = format!("127.0.0.1:{}", port).parse().unwrap();
+        let _ = self.connect_sock(a);
+    }
     pub fn v_node_id(&self) -> NodeId {
         self.node_id
     }
